@@ -45,6 +45,13 @@ EventOK(e) ==
                        ELSE e.ok /\ e.out = HC(e.sha)!Xof(e.msg, e.dst, e.n) /\ Len(e.out) = e.n
     [] e.op = "suite" -> SuiteOK(e)
     [] e.op = "suiteabort" -> HC(e.sha)!XmdAborts(e.n, e.b) /\ ~e.ok /\ e.ptnil     \* weak hash: error and no point
+    \* primitives/h2c.hashToCurve / encodeToCurve on crafted uniform bytes (overlay): everything behind expand_message
+    [] e.op = "h2cmap" ->
+         CASE e.kind = "ro" -> LET Q == ExtAdd(MapPt(ToField(SubSeq(e.u, 1, 48))), MapPt(ToField(SubSeq(e.u, 49, 96))))
+                                   PP == ExtMulCofactor(Q)
+                               IN e.out = EncodePoint(PP) /\ IsTorsionFree(PP)
+           [] e.kind = "nu" -> LET PP == ExtMulCofactor(MapPt(ToField(e.u))) IN e.out = EncodePoint(PP) /\ IsTorsionFree(PP)
+           [] OTHER -> FALSE
     [] e.op = "ell2" ->          \* internal/elligator.EdwardsFlavor on a raw field element (overlay)
          LET q == El!MapToCurve(FFromBytes(e.r)) IN e.out = EncodePoint(FromAffine(q))
     [] OTHER -> FALSE
